@@ -70,6 +70,15 @@ class Reporter(object):
     def out_of_time(self):
         return self.deadline is not None and time.time() > self.deadline
 
+    def share(self, upto):
+        """Sections of a workload share the time budget: the section that
+        starts now may run until the fraction `upto` of the whole budget is
+        used (no section can starve the ones after it)."""
+        full = getattr(self, 'full_deadline', None)
+        if full is None:
+            return
+        self.deadline = self.t0 + (full - self.t0) * upto
+
     # -- violations ---------------------------------------------------------
     def violation(self, key, what, case=None):
         """key: mechanism key (string). what: human description."""
@@ -206,3 +215,53 @@ def tb_short(e, n=3):
     tb = traceback.extract_tb(e.__traceback__)
     return ' <- '.join('%s:%d' % (os.path.basename(f.filename), f.lineno)
                        for f in tb[-n:][::-1])
+
+
+# --------------------------------------------------------------------------
+# the repository's own test-suite as one more monitored workload
+# --------------------------------------------------------------------------
+def run_repo_tests_monitored(rep, prefixes, workers=4, timeout=900):
+    """Run pysmt/test with vf/pytest_plugin.py (create_node monitor and
+    contracts on) and turn recorded problems whose kind starts with one of
+    `prefixes` into violations of rep.prop."""
+    import glob
+    import subprocess
+    os.makedirs(OUT, exist_ok=True)
+    base = os.path.join(OUT, 'plugin_%s_%d.json' % (rep.prop, os.getpid()))
+    for f in glob.glob(base + '.*'):
+        os.unlink(f)
+    env = dict(os.environ, VF_PLUGIN_OUT=base,
+               PYTHONPATH='%s:%s:%s' % (REPO, VERIF, DEPS))
+    cmd = [sys.executable, '-m', 'pytest', '-q', '-p', 'no:cacheprovider',
+           '-p', 'vf.pytest_plugin', '-n', str(workers), 'pysmt/test']
+    try:
+        r = subprocess.run(cmd, cwd=REPO, env=env, stdout=subprocess.PIPE,
+                           stderr=subprocess.STDOUT, timeout=timeout)
+        tail = r.stdout.decode('utf-8', 'replace').strip().splitlines()[-1:]
+    except subprocess.TimeoutExpired:
+        rep.notes.append('monitored test-suite run timed out')
+        return
+    rep.notes.append('repository test-suite under monitors: %s' % tail)
+    files = glob.glob(base + '.*')
+    if not files:
+        rep.notes.append('monitored test-suite run left no report')
+        return
+    for f in files:
+        with open(f) as fh:
+            d = json.load(fh)
+        os.unlink(f)
+        rep.count('testsuite_nodes_created', d['created'])
+        rep.count('testsuite_nodes_typed', d['nodes_typed'])
+        for k, v in d['counts'].items():
+            rep.count('testsuite_' + k, v)
+        for p in d['problems']:
+            if any(p[0].startswith(x) for x in prefixes):
+                rep.violation('%s/testsuite/%s' % (rep.prop, p[0]),
+                              'while running %s: %s %s' % (
+                                  p[-1], p[1], p[2] if len(p) > 3 else ''),
+                              None)
+        for name, info in d['pending']:
+            if any(name.startswith(x) for x in prefixes):
+                rep.violation('%s/testsuite/%s' % (rep.prop, name), info,
+                              None)
+    rep.case(key='repo-testsuite')
